@@ -175,6 +175,26 @@ Theorem C14_reaccepted_within_two_windows : forall w p d c t0 roles sched pre t 
 Proof. exact reaccepted_within_two_windows. Qed.
 Print Assumptions C14_reaccepted_within_two_windows.
 
+(** Towards time-lock freedom of the timely system (the urgency assumptions can always be met,
+    by thread steps, which take no time and which [tstep] never refuses): whoever holds the
+    mutex releases it within three of its own steps; with the mutex free a cleaner that has its
+    tick completes its cycle.  (What is not proved: the composition into "from every reachable
+    state"; it needs the invariant owner = Some t -> holds t, the converse of the one in [Inv].) *)
+Theorem C14_holder_releases : forall (w : Z) (s : state) (t : tid),
+  holds (thr s t) = true ->
+  exists n s', (n <= 3)%nat /\ replay w s (repeat (LThr t) n) = Some s' /\ owner s' = None
+               /\ clock s' = clock s.
+Proof. exact holder_releases. Qed.
+Print Assumptions C14_holder_releases.
+
+Theorem C14_cleaner_cycle_possible : forall (w : Z) (s : state) (c : tid) (T : Z),
+  thr s c = TCleaner (CTicked T) -> owner s = None ->
+  exists s', replay w s [LThr c; LThr c; LThr c] = Some s'
+             /\ thr s' c = TCleaner CWait /\ owner s' = None /\ clock s' = clock s
+             /\ forall k e, alookup k (tags s') = Some e -> T <= e.
+Proof. exact cleaner_cycle_possible. Qed.
+Print Assumptions C14_cleaner_cycle_possible.
+
 (** A sweep is complete: while the cleaner still holds the lock after cleanOut(T), no
     remembered key has an expiry before T. *)
 Theorem C14_sweep_is_complete : forall (w t0 : Z) roles sched t T,
